@@ -173,6 +173,7 @@ def run(index, rep, tier):
     rep.rule("R14.1", "unit discipline: in the distance-matrix classes no sum mixes a path length with a step count or a bare integer, every field/table holds one unit, the length accessor reads the length table and normalises by the tree length, the step accessor reads the step table and normalises by the edge count, and the weighted/unweighted switch selects them that way round")
     rep.rule("R14.2", "parallel formulas: wherever a length and a step count are stored for the same pair (or built for the same descendant path), replacing every edge-length term of the length formula by 1 gives the step formula")
     rep.rule("R14.3", "symmetry: every table the taxon matrix fills pairwise is mirrored by _mirror_lookups, which runs on every path of compile_from_tree / compile_from_dict; in the node matrix every store [a][b] has its mirror [b][a] with the same value in the same block; self-entries are initialised to zero")
+    rep.rule("R14.7", "per-item values are per item: in the matrix compilers a local derived from the current loop item (an edge length defaulted to 0 when missing) is recomputed for every item before use; matrix sizes used by nj_tree/upgma_tree are counts of the matrix's own taxa, never of the namespace")
     rep.rule("R14.5", "one option, one default: a same-named option (is_normalize_by_tree_size, is_weighted_edge_distances) has the same default in every method of a distance-matrix class, so what is written to CSV is what the accessors return")
     rep.rule("R14.6", "a ** keyword dictionary is handed on by unpacking: it never reaches a library callable (csv.writer / csv.reader) as a positional argument, where it would be taken for a dialect and its contents ignored")
     rep.rule("R14.4", "common ancestor: the node recorded as the MRCA of descendants of two different children is the node whose children are being paired; Tree.mrca re-encodes unless told the encoding is current, and treemeasure.patristic_distance forwards that flag and walks both taxa up to the MRCA with the same loop")
@@ -318,6 +319,23 @@ def run(index, rep, tier):
                 rep.check(ok, "R14.3", nf.qualname, "no mirror store for self.%s[%s][%s]" % (f, subs[0], subs[1]), fn_where(nf, a), "self.%s[%s][%s] has its mirror with the same value in the same block" % (f, subs[0], subs[1]),
                           "NodeDistanceMatrix.compile_from_tree stores self.%s[%s][%s] = %s without storing the same value under [%s][%s] in the same block: the node matrix is not symmetric" % (f, subs[0], subs[1], norm(a.value)[:60], subs[1], subs[0]))
         rep.floor("R14.3", "pairwise stores in NodeDistanceMatrix.compile_from_tree", 16, nsym)
+
+    # ---- R14.7
+    with rep.section("R14.7"):
+        nst = 0
+        for q in (PDM + ".compile_from_tree", NDM + ".compile_from_tree", PDM + ".nj_tree", PDM + ".upgma_tree"):
+            nst += stale_item_value_rule(rep, "R14.7", index.function(q))
+        rep.floor("R14.7", "uses of item-derived locals in the matrix compilers / NJ / UPGMA", 3, nst)
+        nsz = 0
+        for q in (PDM + ".nj_tree", PDM + ".upgma_tree"):
+            f = index.function(q)
+            for c in calls_in(f.node):
+                if call_name(c) == "len" and isinstance(c.func, ast.Name) and c.args:
+                    a = norm(c.args[0])
+                    nsz += 1
+                    rep.check("taxon_namespace" not in a, "R14.7", f.qualname, "size taken from the namespace: %s" % norm(c), fn_where(f, c), "%s: `%s` counts matrix entries" % (f.name, norm(c)),
+                              "%s takes a size from `%s`: a namespace can hold taxa the matrix has no distances for (a pruned tree keeps its namespace; a CSV read into a shared namespace), so the (n-2) factors of the Q-matrix / branch lengths are computed for too large an n and the reconstructed edge lengths are wrong" % (f.qualname, norm(c)))
+        rep.floor("R14.7", "len() calls in nj_tree / upgma_tree", 2, nsz)
 
     # ---- R14.5
     with rep.section("R14.5"):
